@@ -173,7 +173,8 @@ class Run:
             self.viol('callback_outside_dispatch', event=ev, handler=cls_ix)
         self.frame['calls'].append(cls_ix)
         receiver = None
-        script = self.scripts.pop(cls_ix, None)
+        # (callbacks reached by a dispatch that a finalizer issued are passive: their scripts stay armed)
+        script = self.scripts.pop(cls_ix, None) if 'finalizer_of' not in self.frame else None
         if script is not None:
             # (a handler whose callback is running is referenced by that call: dropping the program's references
             # cannot make it go away before the callback returns - also when the drop comes from a nested dispatch)
@@ -213,7 +214,9 @@ class Run:
             self.entity[j] = None
             self.strong[j] = None
         self.registered[j] = False
-        if j != from_callback and j not in self.executing:
+        if j != from_callback and j not in self.executing and not self.outer:
+            # (inside a dispatch nested in another one - a finalizer announcing a death - the outer loop may hold the
+            # very handler it is about to call: whether it is gone is judged by the closing sweep instead)
             if self.weak[j]() is not None:
                 gc.collect()        # reference cycles are legitimate; anything else shows below
                 self.flags['needed_gc_collect'] += 1
@@ -246,7 +249,7 @@ class Run:
                 self.strong[j] = None
         gc.collect()
         for j in range(self.n):
-            if (j != from_callback and j not in self.executing and self.weak[j] is not None
+            if (j != from_callback and j not in self.executing and not self.outer and self.weak[j] is not None
                     and self.weak[j]() is not None):
                 self.viol('handler_kept_alive_after_last_reference_dropped', handler=j, after='clear()')
         self.strong[from_callback] = None
